@@ -26,7 +26,7 @@
    Children are evaluated left to right and ALL of them are evaluated (V1's early exit of a union
    is an optimisation of that model; here later siblings must still leave their entries).
    With `enabled = false` nothing is looked up or stored: that is the uncached engine, and its
-   outcome sets coincide with Check/V1.v (QueryCacheProofs.checkS_off_V1). *)
+   definite outcomes coincide with those of Check/V1.v (QueryCacheProofs.check_nc_dv_V1, history_off_is_V1). *)
 From OFGA Require Export Check.V1.
 Open Scope N_scope.
 
